@@ -52,17 +52,17 @@ pub unsafe extern "C" fn direct_entry<I: AbiExportable + ?Sized>(flag: AbiProtoc
 
 /// Hand-built connection of a caller compiled against `dyn C` to an implementation object of
 /// interface `dyn I` (same or different version of the interface family).
-pub fn connect<C: ?Sized, I: AbiExportable + ?Sized>(imp: Box<I>, effective_version: u32, methods: Vec<(Option<u16>, u64)>) -> AbiConnection<C> {
-    let mut ms = Vec::with_capacity(methods.len());
-    for (num, mask) in methods {
-        ms.push(AbiConnectionMethod {
-            method_name: String::new(),
-            caller_info: AbiMethodInfo { return_value: Schema::ZeroSize, receiver: ReceiverType::Shared, arguments: Vec::new(), async_trait_heuristic: false },
-            callee_method_number: num,
-            compatibility_mask: mask,
-        });
+pub fn m(num: Option<u16>, mask: u64) -> AbiConnectionMethod {
+    AbiConnectionMethod {
+        method_name: String::new(),
+        caller_info: AbiMethodInfo { return_value: Schema::ZeroSize, receiver: ReceiverType::Shared, arguments: Vec::new(), async_trait_heuristic: false },
+        callee_method_number: num,
+        compatibility_mask: mask,
     }
-    let methods: &'static [AbiConnectionMethod] = Box::leak(ms.into_boxed_slice());
+}
+/// `methods` is built with a `vec![m(..), m(..)]` literal (no loop in the harness: R6).
+pub fn connect<C: ?Sized, I: AbiExportable + ?Sized>(imp: Box<I>, effective_version: u32, methods: Vec<AbiConnectionMethod>) -> AbiConnection<C> {
+    let methods: &'static [AbiConnectionMethod] = Box::leak(methods.into_boxed_slice());
     AbiConnection {
         template: AbiConnectionTemplate { effective_version, methods, entry: direct_entry::<I> },
         owning: Owning::NotOwned,
